@@ -30,7 +30,7 @@ func genName(r *hx.Rng, term, idx uint64) string {
 }
 
 var junkNames = []string{"a-b-c", "-", "1-", "-1", "zz-1", "1-zz", "1-2-3", "fffffffffffffffff-1", "1-fffffffffffffffff",
-	"0x1-2", "+1-2", "1_0-2", " 1-2", "remote", "tmp", "000000000000000g-0000000000000001", "1--2", "Ab-Cd", ".-.", "-.sst"}
+	"0000000000000001-0000000000000005.tmp", "0x1-2", "+1-2", "1_0-2", " 1-2", "remote", "tmp", "000000000000000g-0000000000000001", "1--2", "Ab-Cd", ".-.", "-.sst"}
 
 // genListing: wellFormed = canonical-ish names with distinct (term,index) keys; otherwise junk,
 // duplicates of one key under different spellings and names without a dash are mixed in.
